@@ -37,9 +37,9 @@ def r1(ctx):
         if isinstance(e, ast.Call) and isinstance(e.func, ast.Attribute) and e.func.attr == "find":
             return "IDX"
         return len_atom(e) and "LEN"
-    loop = [w for w in walk_own(f.node) if isinstance(w, ast.While)]
-    ctx.need(loop, "C12.R1: read_line has no loop")
-    head = [n for n in g.nodes_of(loop[0]) if n.kind == "join"][0]
+    # evaluated from the function entry up to the first refill: IDX / LEN stand for the position of CRLF in, and the
+    # length of, the bytes buffered so far, wherever the function computes them
+    head = g.entry
     rows = []
     for limit in (0, 10):
         for idx, ln in ((-1, 5), (-1, 12), (-1, 13), (-1, 4000), (5, 7), (10, 12), (11, 13), (4000, 4002)):
@@ -256,7 +256,7 @@ def r3(ctx):
                       "this loop appends socket data to a buffer until a delimiter %s shows up, with no length test against a configured limit that rejects: "
                       "a client that never sends the delimiter makes the server buffer without bound" % (delim[:1] or "",),
                       "capped by `%s`" % (norm(caps[0]) if caps else ""))
-    ctx.floor("C12.R3", "accumulate-until-delimiter loops", n, 4)
+    ctx.floor("C12.R3", "accumulate-until-delimiter loops", n, 3)
     # every other loop of the http layer that reads from the connection and accumulates is self-bounded by a length
     m = 0
     for mn in (MSG, BODY, "gunicorn.http.parser", "gunicorn.http.unreader"):
